@@ -101,6 +101,9 @@ type SimSub struct {
 	// Send fails too (connection dropped), otherwise only that one (transient).
 	FailFrom int
 	Dropped  bool
+	// Alias / Named vary the shape of the subscription request.
+	Alias bool
+	Named bool
 
 	env   SubEnv
 	sends int
@@ -234,7 +237,15 @@ func (w *SubWorld) Subscribe(sid int) string {
 	if s.Topic != "" {
 		topic = strconv.Quote(s.Topic)
 	}
-	req := "subscription { watch(topic: " + topic + ", sid: " + strconv.Itoa(sid) + ") " + SubSelections[s.SelIndex].Sel + " }"
+	field := "watch"
+	if s.Alias {
+		field = "w" + strconv.Itoa(sid) + ": watch"
+	}
+	op := "subscription"
+	if s.Named {
+		op = "subscription Sub" + strconv.Itoa(sid)
+	}
+	req := op + " { " + field + "(topic: " + topic + ", sid: " + strconv.Itoa(sid) + ") " + SubSelections[s.SelIndex].Sel + " }"
 	return CanonLite(w.Root.ResolveString(req, "", nil))
 }
 
